@@ -195,6 +195,9 @@ def encode(job):
         if rr == "sat":
             m = s.model()
             res["twins"][qn + "_model"] = decode(m) + ((it.val(m.eval(rz, model_completion=True)),) if qn == "reach_index" else ())
+    xs = common.xs_run(s, qs, res["verdicts"], (rule_name, L), ("misses_valid_position", "refusal_iff_not_in_rule", "out_of_bounds"))
+    if xs:
+        res["xsolver"] = xs
     res["t_solve"] = time.time() - t1
     res["stats"] = {k: (round(v, 3) if isinstance(v, float) else v) for k, v in view.stats.items()}
     res["functions"] = sorted(view.functions | view2.functions)
@@ -206,6 +209,7 @@ def run(tier, only=None):
     rep = Report(PROP, tier, "PyBMC merged symbolic execution of child_insert_index / is_allowed_child + z3 QF_BV; oracle: derivative DFA")
     b = bounds(tier)
     sd = common.seed()
+    common.xs_enable(tier)
     rules = [only] if only else list(R.rules_dict.keys())
     random.Random(sd).shuffle(rules)
     jobs = []
@@ -244,6 +248,7 @@ def run(tier, only=None):
         if r.get("mode", "merged") != "merged":
             pw.append({"case": tag, "paths": r["paths"]})
         rep.functions.update(r["functions"])
+        common.xs_collect(rep, tag, r)
         rep.solver_time += r["t_solve"] + r["stats"].get("t_check", 0)
         for qn, v in list(r["verdicts"].items()) + [(k, v) for k, v in r["twins"].items() if not k.endswith("_model")]:
             rep.count(v)
